@@ -511,6 +511,24 @@ func c18() *report.Check {
 				}
 				c.Stats.Class("writes off: " + w.outcome(r, off))
 				c.Stats.Class("writes on:  " + w.outcome(r, on))
+				// the decision belongs to the method and the path: the same request without
+				// its query component is answered the same way, in both modes
+				if i := strings.IndexByte(r.Target, '?'); i >= 0 && r.SynthPath == "" && off.Parsed {
+					base := r
+					base.Target = r.Target[:i]
+					boff, bon, _ := w.serve(base)
+					for _, x := range []struct {
+						mode   string
+						with, without apix.Obs
+					}{{"disabled", off, boff}, {"enabled", on, bon}} {
+						if x.without.Parsed && (x.with.Reached != x.without.Reached || x.with.Status != x.without.Status || x.with.Body != x.without.Body) {
+							c.Violation("C18/decision-depends-on-the-query-component", fmt.Sprintf("[%s; %s; body %s]\n%s\nwrite operations %s: answered %d %q (route %q), but the same method and path without the query component: %d %q (route %q)", p.Template, p.How, bodyName, r, x.mode, x.with.Status, x.with.Body, x.with.Reached, x.without.Status, x.without.Body, x.without.Reached), c18Replay{Request: r, Oracle: "query"})
+							c.Stats.Class("VIOLATION C18/decision-depends-on-the-query-component")
+							break
+						}
+					}
+					c.Stats.Count("requests_compared_with_their_query_less_form", 1)
+				}
 				rangesNow := maporder.Ranges
 				if sig, msg, then := w.history(r, p.Template); sig != "" {
 					c.Violation(sig, fmt.Sprintf("[%s; %s; body %s]\n%s", p.Template, p.How, bodyName, msg), c18Replay{Request: r, Then: &then, Oracle: "history"})
@@ -691,6 +709,14 @@ func c18() *report.Check {
 			}
 			if sig, msg := w.judge(rp.Request, off0, on0); sig != "" {
 				return sig + "\n" + msg
+			}
+			if i := strings.IndexByte(rp.Request.Target, '?'); rp.Oracle == "query" && i >= 0 {
+				base := rp.Request
+				base.Target = base.Target[:i]
+				boff, bon, _ := w.serve(base)
+				if off0.Reached != boff.Reached || off0.Status != boff.Status || off0.Body != boff.Body || on0.Reached != bon.Reached || on0.Status != bon.Status || on0.Body != bon.Body {
+					return fmt.Sprintf("C18/decision-depends-on-the-query-component\nwith query: writes off %d %q (route %q), writes on %d %q (route %q)\nwithout:    writes off %d %q (route %q), writes on %d %q (route %q)", off0.Status, off0.Body, off0.Reached, on0.Status, on0.Body, on0.Reached, boff.Status, boff.Body, boff.Reached, bon.Status, bon.Body, bon.Reached)
+				}
 			}
 			if len(rp.Choices) > 0 {
 				for _, e := range []*apix.Env{w.off, w.on} {
